@@ -13,7 +13,7 @@ structure CtxOK (c : Ctx) : Prop where
   vars : ∀ e ∈ c.vars, PT.known e.2.vt = true
   funcs : ∀ e ∈ c.funcs, e.2.rets.all PT.basic = true ∧ e.2.params.all (fun p => PT.basic p.vt) = true
 
-theorem assocGet_mem {β : Type} {m : List (String × β)} {k : String} {v : β} (h : assocGet m k = some v) :
+theorem assocGet_elem {β : Type} {m : List (String × β)} {k : String} {v : β} (h : assocGet m k = some v) :
     ∃ e ∈ m, e.2 = v := by
   unfold assocGet at h
   cases hf : m.find? (fun e => e.1 == k) with
@@ -31,16 +31,16 @@ theorem findVar_mem {c : Ctx} {name pfx : String} {g : Bool} {v : Var} (h : c.fi
     · rename_i v' hv
       simp only [Option.some.injEq] at h
       subst h
-      exact assocGet_mem hv
+      exact assocGet_elem hv
     · split at h
-      · exact assocGet_mem h
+      · exact assocGet_elem h
       · simp at h
 
 theorem findFunc_mem {c : Ctx} {name pfx : String} {f : FuncInfo} (h : c.findFunc name pfx = some f) :
     ∃ e ∈ c.funcs, e.2 = f := by
   unfold Ctx.findFunc at h
   split at h
-  · exact assocGet_mem h
+  · exact assocGet_elem h
   · simp at h
 
 theorem CtxOK.var {c : Ctx} (hc : CtxOK c) {name pfx : String} {g : Bool} {v : Var}
@@ -88,11 +88,15 @@ theorem args_snoc {acc : List Expr} {e : Expr} (ha : PT.args_ acc = true) (he : 
     simp only [PT.args_, Bool.and_eq_true] at ha
     simp [PT.args_, ha.1.1, ha.1.2, ih ha.2]
 
+/-- `evaluateBuiltInFunction`: typed arguments, as many as the builtin takes -/
+def builtinP (mn : Nat) (mx : Option Nat) (args : List Expr) : Prop :=
+  argsP args ∧ mn ≤ args.length ∧ ∀ m, mx = some m → args.length ≤ m
+
 /-- the postconditions of all functions of the expression block at one fuel level -/
 structure ExprIH (fuel : Nat) : Prop where
   values : ∀ ctx first, CtxOK ctx → Post (evalValues fuel ctx first) (valsP first)
   builtinArgs : ∀ ctx, CtxOK ctx → Post (evalBuiltinArgs fuel ctx) argsP
-  builtin : ∀ ctx tt mn mx, CtxOK ctx → Post (evalBuiltin fuel ctx tt mn mx) argsP
+  builtin : ∀ ctx tt mn mx, CtxOK ctx → Post (evalBuiltin fuel ctx tt mn mx) (builtinP mn mx)
   arguments : ∀ ctx ps, CtxOK ctx → Post (evalArguments fuel ctx ps) argsP
   argLoop : ∀ ctx ps acc, CtxOK ctx → argsP acc → Post (evalArgLoop fuel ctx ps acc) argsP
   argTail : ∀ ctx ps acc, CtxOK ctx → argsP acc → Post (evalArgTail fuel ctx ps acc) argsP
@@ -230,7 +234,7 @@ theorem builtinArgs_succ (ih : ExprIH fuel) (ctx : Ctx) (hc : CtxOK ctx) :
   · exact Post.err
 
 theorem builtin_succ (ih : ExprIH fuel) (ctx : Ctx) (tt mn : Nat) (mx : Option Nat) (hc : CtxOK ctx) :
-    Post (evalBuiltin (fuel + 1) ctx tt mn mx) argsP := by
+    Post (evalBuiltin (fuel + 1) ctx tt mn mx) (builtinP mn mx) := by
   unfold evalBuiltin
   pm_bind; intro kw
   pm_if
@@ -248,10 +252,14 @@ theorem builtin_succ (ih : ExprIH fuel) (ctx : Ctx) (tt mn : Nat) (mx : Option N
   · exact Post.err
   pm_if
   · exact Post.err
+  rename_i hmin hmax
   pm_bind; intro c
   pm_if
   · exact Post.err
-  · exact Post.pure' ha
+  · refine Post.pure' ⟨ha, by omega, ?_⟩
+    intro m hm
+    subst hm
+    simpa using hmax
 
 theorem arguments_succ (ih : ExprIH fuel) (ctx : Ctx) (ps : Option (List Var)) (hc : CtxOK ctx) :
     Post (evalArguments (fuel + 1) ctx ps) argsP := by
@@ -290,7 +298,11 @@ theorem argLoop_succ (ih : ExprIH fuel) (ctx : Ctx) (ps : Option (List Var)) (ac
   · pm_if
     · exact Post.err
     split
-    · exact Post.pan
+    · rename_i hlen _ hnone
+      refine Post.unreachable ?_
+      simp only [List.getElem?_eq_none_iff, List.length_append, List.length_cons, List.length_nil] at hnone
+      simp only [List.length_append, List.length_cons, List.length_nil, gt_iff_lt, Nat.not_lt] at hlen
+      omega
     · pm_if
       · exact Post.err
       · exact ih.argTail ctx _ _ hc hs
@@ -548,6 +560,21 @@ theorem len_leaf {v : Expr} (hv : exprP v)
     (h : ¬(!(Expr.valueType v).isSlice && !(Expr.valueType v).isString) = true) : exprP (.len v) := by
   cases hsl : (Expr.valueType v).isSlice <;> simp_all [exprP, PT.expr]
 
+theorem len1 {args : List Expr} (h1 : 1 ≤ args.length) (h2 : ∀ m, some 1 = some m → args.length ≤ m) : ∃ p, args = [p] := by
+  have := h2 1 rfl
+  match args, h1, this with
+  | [p], _, _ => exact ⟨p, rfl⟩
+  | [], h, _ => simp at h
+  | _ :: _ :: _, _, h => simp at h
+
+theorem len2 {args : List Expr} (h1 : 2 ≤ args.length) (h2 : ∀ m, some 2 = some m → args.length ≤ m) : ∃ p q, args = [p, q] := by
+  have := h2 2 rfl
+  match args, h1, this with
+  | [p, q], _, _ => exact ⟨p, q, rfl⟩
+  | [], h, _ => simp at h
+  | [_], h, _ => simp at h
+  | _ :: _ :: _ :: _, _, h => simp at h
+
 theorem single_succ (ih : ExprIH fuel) (ctx : Ctx) (hc : CtxOK ctx) :
     Post (evalSingle (fuel + 1) ctx) exprP := by
   unfold evalSingle
@@ -576,21 +603,24 @@ theorem single_succ (ih : ExprIH fuel) (ctx : Ctx) (hc : CtxOK ctx) :
   pm_if
   · pm_ih
   pm_if
-  · pm_bind; intro args ha
+  · pm_bind; rintro args ⟨ha, hmin, hmax⟩
     split
     · exact Post.pure' rfl
     · pm_if
       · exact Post.err
       · exact Post.pure' (by simp_all [exprP, argsP, PT.expr, PT.args_])
   pm_if
-  · pm_bind; intro args ha
+  · pm_bind; rintro args ⟨ha, hmin, hmax⟩
     split
     · pm_if
       · exact Post.err
       · exact Post.pure' (by simp_all [exprP, argsP, PT.expr, PT.args_])
-    · exact Post.pan
+    · rename_i hno
+      first
+        | (obtain ⟨p, rfl⟩ := len1 hmin hmax; exact Post.unreachable (hno p rfl))
+        | (obtain ⟨p, q, rfl⟩ := len2 hmin hmax; exact Post.unreachable (hno p q rfl))
   pm_if
-  · pm_bind; intro args ha
+  · pm_bind; rintro args ⟨ha, hmin, hmax⟩
     split
     · split
       · pm_if
@@ -601,28 +631,40 @@ theorem single_succ (ih : ExprIH fuel) (ctx : Ctx) (hc : CtxOK ctx) :
         · exact Post.err
         · exact Post.pure' (by simp_all [exprP, argsP, PT.expr, PT.args_, Expr.valueType])
       · exact Post.err
-    · exact Post.pan
+    · rename_i hno
+      first
+        | (obtain ⟨p, rfl⟩ := len1 hmin hmax; exact Post.unreachable (hno p rfl))
+        | (obtain ⟨p, q, rfl⟩ := len2 hmin hmax; exact Post.unreachable (hno p q rfl))
   pm_if
-  · pm_bind; intro args ha
+  · pm_bind; rintro args ⟨ha, hmin, hmax⟩
     split
     · pm_if
       · exact Post.err
       · exact Post.pure' (by simp_all [exprP, argsP, PT.expr, PT.args_])
-    · exact Post.pan
+    · rename_i hno
+      first
+        | (obtain ⟨p, rfl⟩ := len1 hmin hmax; exact Post.unreachable (hno p rfl))
+        | (obtain ⟨p, q, rfl⟩ := len2 hmin hmax; exact Post.unreachable (hno p q rfl))
   pm_if
-  · pm_bind; intro args ha
+  · pm_bind; rintro args ⟨ha, hmin, hmax⟩
     split
     · pm_if
       · exact Post.err
       · exact Post.pure' (by simp_all [exprP, argsP, PT.expr, PT.args_])
-    · exact Post.pan
+    · rename_i hno
+      first
+        | (obtain ⟨p, rfl⟩ := len1 hmin hmax; exact Post.unreachable (hno p rfl))
+        | (obtain ⟨p, q, rfl⟩ := len2 hmin hmax; exact Post.unreachable (hno p q rfl))
   pm_if
-  · pm_bind; intro args ha
+  · pm_bind; rintro args ⟨ha, hmin, hmax⟩
     split
     · pm_if
       · exact Post.err
       · exact Post.pure' (len_leaf (args1 ha) ‹_›)
-    · exact Post.pan
+    · rename_i hno
+      first
+        | (obtain ⟨p, rfl⟩ := len1 hmin hmax; exact Post.unreachable (hno p rfl))
+        | (obtain ⟨p, q, rfl⟩ := len2 hmin hmax; exact Post.unreachable (hno p q rfl))
   pm_if
   · exact (ih.appCall ctx hc).mono (fun e h => chain_expr h)
   pm_if
